@@ -368,7 +368,17 @@ func (q *qctx) argShapes(ce *ast.CallExpr, arg ast.Expr) tset {
 			return q.paramShapes(in, pi)
 		}
 	}
-	q.note("%s: argument %s is not a constant, the text of an action, or a parameter handed on", q.g.Where(ce.Pos()), nospace(arg))
+	// the text of a node handed to a helper (`classFlags(c.Val)`), possibly trimmed
+	switch x := arg.(type) {
+	case *ast.SelectorExpr, *ast.CallExpr:
+		_ = x
+		sub := &qinterp{q: q, fd: in, info: info, sites: map[token.Pos]*qsite{}}
+		v := sub.eval(arg, &qstate{vars: map[types.Object]tset{}, conds: map[string]ast.Expr{}})
+		if len(sub.order) == 0 {
+			return v
+		}
+	}
+	q.note("%s: argument %s is not a constant, the text of an action, the text of a node, or a parameter handed on", q.g.Where(ce.Pos()), nospace(arg))
 	return tset{unknownShape}
 }
 
@@ -833,52 +843,76 @@ func (in *qinterp) refine(cond ast.Expr, truth bool, st *qstate) *qstate {
 			if !ok || !cok || tv.Value == nil || tv.Value.Kind() != constant.String {
 				return st
 			}
-			lit := constant.StringVal(tv.Value)
-			obj := in.info.Uses[id]
-			cur := in.eval(id, st)
-			var out tset
-			for _, s := range cur {
-				known := s.suf
-				if fn == "strings.HasPrefix" {
-					known = s.pre
-				}
-				decided := len(known) >= len(lit) || s.exact
-				has := strings.HasSuffix(known, lit)
-				if fn == "strings.HasPrefix" {
-					has = strings.HasPrefix(known, lit)
-				}
-				switch {
-				case decided && has == truth:
-					out = append(out, s)
-				case decided:
-					// this shape cannot take the branch
-				case truth:
-					n := s
-					if fn == "strings.HasPrefix" {
-						n.pre = lit
-					} else {
-						n.suf = lit
-					}
-					if n.min < len(lit) {
-						n.min = len(lit)
-					}
-					out = append(out, n)
-				default:
-					out = append(out, s)
-				}
-			}
-			o := st.clone()
-			if len(out) == 0 {
-				o.dead = true
-			}
-			o.vars[obj] = out.norm()
-			return o
+			return in.refineAffix(id, constant.StringVal(tv.Value), fn == "strings.HasPrefix", truth, st)
 		}
 	}
 	return st
 }
 
+// refineAffix: the state in which the text of id has (truth) or has not the literal as its suffix / prefix.
+func (in *qinterp) refineAffix(id *ast.Ident, lit string, prefix, truth bool, st *qstate) *qstate {
+	obj := in.info.Uses[id]
+	cur := in.eval(id, st)
+	var out tset
+	for _, s := range cur {
+		known := s.suf
+		if prefix {
+			known = s.pre
+		}
+		decided := len(known) >= len(lit) || s.exact
+		has := strings.HasSuffix(known, lit)
+		if prefix {
+			has = strings.HasPrefix(known, lit)
+		}
+		switch {
+		case decided && has == truth:
+			out = append(out, s)
+		case decided:
+			// this shape cannot take the branch
+		case truth:
+			n := s
+			if prefix {
+				n.pre = lit
+			} else {
+				n.suf = lit
+			}
+			if n.min < len(lit) {
+				n.min = len(lit)
+			}
+			out = append(out, n)
+		default:
+			out = append(out, s)
+		}
+	}
+	o := st.clone()
+	if len(out) == 0 {
+		o.dead = true
+	}
+	o.vars[obj] = out.norm()
+	return o
+}
+
 func (in *qinterp) refineCompare(x *ast.BinaryExpr, truth bool, st *qstate) *qstate {
+	// x[0] == 'c' / x[len(x)-1] == 'c': the text starts / ends with the byte
+	if ix, ok := stripParens(x.X).(*ast.IndexExpr); ok && (x.Op == token.EQL || x.Op == token.NEQ) {
+		if id, ok := stripParens(ix.X).(*ast.Ident); ok && isStringType(in.info.TypeOf(id)) {
+			if tv, ok := in.info.Types[x.Y]; ok && tv.Value != nil && tv.Value.Kind() == constant.Int {
+				if c, exact := constant.Int64Val(tv.Value); exact && c > 0 && c < 128 {
+					t := truth
+					if x.Op == token.NEQ {
+						t = !t
+					}
+					sub := nospace(ix.Index)
+					if sub == "0" {
+						return in.refineAffix(id, string(rune(c)), true, t, st)
+					}
+					if sub == "len("+id.Name+")-1" {
+						return in.refineAffix(id, string(rune(c)), false, t, st)
+					}
+				}
+			}
+		}
+	}
 	op := x.Op
 	if !truth {
 		op = map[token.Token]token.Token{token.EQL: token.NEQ, token.NEQ: token.EQL, token.LSS: token.GEQ, token.GEQ: token.LSS, token.GTR: token.LEQ, token.LEQ: token.GTR}[op]
@@ -1052,6 +1086,11 @@ func (in *qinterp) stmt(s ast.Stmt, st *qstate) *qstate {
 				in.assign(lh, v, x.Rhs[i], st)
 			}
 		} else {
+			if v, ok := in.cutResult(x, st); ok {
+				in.assign(x.Lhs[0], v, nil, st)
+				in.assign(x.Lhs[1], tset{unknownShape}, nil, st)
+				return st
+			}
 			for _, rh := range x.Rhs {
 				in.scan(rh, st)
 			}
@@ -1150,6 +1189,64 @@ func (in *qinterp) stmt(s ast.Stmt, st *qstate) *qstate {
 		return st
 	}
 	return st
+}
+
+// cutResult: `rest, found := strings.CutSuffix(x, "lit")` (or CutPrefix): the shapes of rest - the shape without the
+// literal where the text is known to carry it, the shape as it is where it is known not to, both where it is not known.
+func (in *qinterp) cutResult(x *ast.AssignStmt, st *qstate) (tset, bool) {
+	if len(x.Lhs) != 2 || len(x.Rhs) != 1 {
+		return nil, false
+	}
+	ce, ok := stripParens(x.Rhs[0]).(*ast.CallExpr)
+	if !ok || len(ce.Args) != 2 {
+		return nil, false
+	}
+	fn := nospace(ce.Fun)
+	if fn != "strings.CutSuffix" && fn != "strings.CutPrefix" {
+		return nil, false
+	}
+	tv, cok := in.info.Types[ce.Args[1]]
+	if !cok || tv.Value == nil || tv.Value.Kind() != constant.String {
+		return nil, false
+	}
+	lit := constant.StringVal(tv.Value)
+	var out tset
+	for _, s := range in.eval(ce.Args[0], st) {
+		known, has := s.suf, strings.HasSuffix(s.suf, lit)
+		lo, hi := 0, len(lit)
+		if fn == "strings.CutPrefix" {
+			known, has = s.pre, strings.HasPrefix(s.pre, lit)
+			lo, hi = len(lit), 0
+		}
+		decided := len(known) >= len(lit) || s.exact
+		switch {
+		case decided && has:
+			o, _ := sliceShape(s, lo, hi)
+			out = append(out, o)
+		case decided:
+			out = append(out, s)
+		default:
+			out = append(out, s)
+			m := s.min - len(lit)
+			if m < 0 {
+				m = 0
+			}
+			o := tshape{min: m}
+			if fn == "strings.CutPrefix" {
+				o.suf = s.suf
+			} else {
+				o.pre = s.pre
+			}
+			if len(o.pre) > o.min {
+				o.pre = ""
+			}
+			if len(o.suf) > o.min {
+				o.suf = ""
+			}
+			out = append(out, o)
+		}
+	}
+	return out.norm(), true
 }
 
 // hasConstantStringSlice: the function slices a string by constant distances from its ends.
@@ -1261,7 +1358,23 @@ func c13DelimiterSlices(c *Ctx, g *load.G) {
 			}
 			q.notes = nil
 			in := &qinterp{q: q, fd: fd, info: p.TypesInfo, sites: map[token.Pos]*qsite{}}
-			in.block(fd.Body.List, &qstate{vars: map[types.Object]tset{}, conds: map[string]ast.Expr{}})
+			st0 := &qstate{vars: map[types.Object]tset{}, conds: map[string]ast.Expr{}}
+			// string parameters hold, at entry, what the call sites hand over
+			if fd.Type.Params != nil {
+				pi := 0
+				for _, f := range fd.Type.Params.List {
+					for _, nm := range f.Names {
+						if obj := p.TypesInfo.Defs[nm]; obj != nil && isStringType(obj.Type()) {
+							st0.vars[obj] = q.paramShapes(fd, pi)
+						}
+						pi++
+					}
+					if len(f.Names) == 0 {
+						pi++
+					}
+				}
+			}
+			in.block(fd.Body.List, st0)
 			seen := map[string]int{}
 			for _, pos := range in.order {
 				s := in.sites[pos]
